@@ -19,6 +19,7 @@ on anything else ("untranslatable construct at file:line"): a failure is a broke
                       (float arithmetic as the uninterpreted operations `Py.FOps`); propagate_labels in ClusImp,
                       eliminate_maxima_height in PdfImp
   Gen/SplitImp.lean, PrecompImp.lean   … of split / split_with_index / merge and pre_compute_distance (tools/translate_np.py)
+  Gen/ConvImp.lean, ParseImp.lean      … of opf2txt / opf2csv / opf2json (reading part), load_json (record loop), parse_loader (tools/translate_conv.py)
 """
 import ast
 import decimal
@@ -823,6 +824,13 @@ def main():
     err = translate_meas.translate_persist(REPO, GEN, write)
     if err:
         notes.append(f"TRANSLATOR-IMP(save/load): {err}")
+    import translate_conv
+    err = translate_conv.translate_conv(REPO, GEN, write)
+    if err:
+        notes.append(f"TRANSLATOR-IMP(converters / load_json): {err}")
+    err = translate_conv.translate_parse(REPO, GEN, write)
+    if err:
+        notes.append(f"TRANSLATOR-IMP(parse_loader): {err}")
     for n in notes:
         print(n)
     return 0
